@@ -21,6 +21,9 @@ Definition is_typex (e : entry) : bool := N.eqb (e_type e) ty_xhdr || N.eqb (e_t
 
 Inductive ures := ROk | RIllegal | RError | RPanic.
 
+(* file-system times are in nanoseconds, tar header times in whole seconds *)
+Definition sec_to_ns (s : Z) : Z := (s * 1000000000)%Z.
+
 (* components of a clean absolute path *)
 Fixpoint strip_prefix (pre l : list str) : option (list str) :=
   match pre, l with
@@ -131,7 +134,7 @@ Definition unpack_entry (is_root : bool) (allow : list str) (fs : node) (dst : s
                     match chmod fs p (e_mode e) with
                     | (fs, Err _) => (fs, dirs, Some RError)
                     | (fs, Ok _) =>
-                        match chtimes fs p (e_mtime e) with
+                        match chtimes fs p (sec_to_ns (e_mtime e)) with
                         | (fs, Err _) => (fs, dirs, Some RError)
                         | (fs, Ok _) => (fs, dirs, None)
                         end
@@ -167,7 +170,7 @@ Fixpoint restore_dirs (fs : node) (dirs : list (list str * entry)) : node * ures
       match tolerate (chmod fs p (e_mode e)) with
       | (fs, Some r) => (fs, r)
       | (fs, None) =>
-          match tolerate (chtimes fs p (e_mtime e)) with
+          match tolerate (chtimes fs p (sec_to_ns (e_mtime e))) with
           | (fs, Some r) => (fs, r)
           | (fs, None) => restore_dirs fs rest
           end
